@@ -95,6 +95,9 @@ pub fn verify_image<H: HK>(
     scratch: &Scratch,
     what: &str,
 ) -> Result<Which, String> {
+    // a case enumerates hundreds of images: each one judged is progress for the watchdog (a nomt call that
+    // hangs inside one image still trips it)
+    crate::runner::heartbeat();
     let dir = scratch.dir(Fs::Tmpfs);
     iosim::write_image(img, &dir).map_err(|e| format!("INFRA: write image: {e}"))?;
     let r = verify_dir::<H>(&dir, ctx, must, deep, what);
